@@ -119,6 +119,7 @@ Send(how) ==
                  rx    |-> s.rx, txid |-> Line.txid, txq |-> Line.txq,
                  txck  |-> Line.txck,        \* client half of the COOKIE option in the bytes leaving
                  txn   |-> Line.txn, txk |-> Line.txk,   \* ... their NSID / edns-tcp-keepalive options
+                 txad  |-> Line.txad, txtc |-> Line.txtc, txz |-> Line.txz,   \* ... the AD / TC / Z bits of their flags word
                  wrote |-> (how = "sendNow") \/ s.wrote,
                  nth   |-> s.sends + 1]
      /\ Step(j, IF how = "sendNow" THEN OpWriteNow(s) ELSE OpSent(s), Line.st)
@@ -133,7 +134,11 @@ Final ==
   /\ Is("final")
   /\ LET reading == {j \in DOMAIN sl : sl[j].state = "reading"}
          busy    == {j \in DOMAIN sl : sl[j].state \in {"queued", "serving"}}
-     IN /\ home' = (Line.quiesced /\ Line.if = 0 /\ busy = {} /\ Cardinality(reading) = Line.ls)
+     IN \* ... and no slab is held by nobody: the slabs out in `reading` are no more than the readers of the run
+        \* can have armed between them (Line.hold; a slab a reader consumed and neither served nor released stays
+        \* `reading`, leased, and in no reader's ring)
+        /\ home' = (Line.quiesced /\ Line.if = 0 /\ busy = {} /\ Cardinality(reading) = Line.ls
+                    /\ Cardinality(reading) <= Line.hold)
         /\ PrintT(<<"drift", drift, "slabs", Cardinality(DOMAIN sl)>>)
   /\ UNCHANGED <<sl, cfg, own, drift>> /\ last' = NoSend
 
@@ -162,6 +167,15 @@ ReplyOptIsOwn ==
     /\ last.txck # "" => (last.rx # None /\ last.txck = last.rx.ck)
     /\ last.txn => (last.rx # None /\ last.rx.n)
     /\ last.txk => (last.rx # None /\ last.rx.ka)
+
+(* the flags word of the bytes leaving is the reply's own: AD only in the   *)
+(* answer to a packet whose name the tail validates (rx kind "a"), the      *)
+(* reserved bit never -- not what an earlier reply left in the slab's TX    *)
+(* buffer under a reply composed in place (UdpSlab txhd / ClearHdr)         *)
+ReplyHeaderIsOwn ==
+  last.valid =>
+    /\ last.txad => (last.rx # None /\ last.rx.k = "a")
+    /\ ~last.txz
 
 (* a request decided in silence causes no datagram; nothing staged by an   *)
 (* earlier lease survives into this one                                    *)
